@@ -133,7 +133,15 @@ static void PrintStmt(const Scenario& sc, const Stmt& s, std::string* o) {
     if (s.description) { snprintf(buf, sizeof buf, "  description = D%d $out\n", s.id); *o += buf; }
     if (s.restat) *o += "  restat = 1\n";
     if (s.generator) *o += "  generator = 1\n";
-    if (s.deps_kind == 1 || s.deps_kind == 2) *o += "  depfile = " + NinjaValueEscape(s.depfile) + "\n";
+    if (s.deps_kind == 1 || s.deps_kind == 2) {
+      // half of the depfile bindings are spelled through $out, as build files usually do
+      // (the unescaped expansion is what names the file, whatever characters $out has)
+      std::string tail = s.outs.empty() ? std::string() : s.outs[0] + ".d";
+      bool via_out = s.outs.size() == 1 && s.depfile.size() >= tail.size() && s.depfile.compare(s.depfile.size() - tail.size(), tail.size(), tail) == 0 &&
+                     Hash64(s.depfile, (uint64_t)s.id * 13 + 5) % 2 == 0;
+      if (via_out) *o += "  depfile = " + NinjaValueEscape(s.depfile.substr(0, s.depfile.size() - tail.size())) + "$out.d\n";
+      else *o += "  depfile = " + NinjaValueEscape(s.depfile) + "\n";
+    }
     if (s.deps_kind == 2) *o += "  deps = gcc\n";
     if (s.deps_kind == 3) *o += "  deps = msvc\n";
     if (s.rsp) {
@@ -448,6 +456,12 @@ struct Gen {
     sc.stmts.push_back(s);
   }
 
+  // the producer declares the dyndep file as an explicit or (half of the time) an implicit output
+  static void AddDyndepOutput(Stmt& prod, const std::string& path) {
+    if (Hash64(path, (uint64_t)prod.id * 7 + 3) % 2 == 0) prod.imp_outs.push_back(path);
+    else prod.outs.push_back(path);
+  }
+
   bool DependsOn(int a, int b) const {  // does statement a (transitively) depend on b via declared inputs?
     if (a == b) return true;
     const Stmt& s = sc.stmts[a];
@@ -471,7 +485,7 @@ struct Gen {
       for (const Stmt& s : sc.stmts) if (!s.phony && !s.regen && s.id < first && s.deps_kind < 2) prods.push_back(s.id);
       if (!prods.empty() && C(3) != 0) {
         dd.producer = prods[C((uint32_t)prods.size())];
-        sc.stmts[dd.producer].outs.push_back(dd.path);
+        AddDyndepOutput(sc.stmts[dd.producer], dd.path);
       } else {
         dd.producer = -1;
       }
@@ -535,7 +549,7 @@ struct Gen {
       if (kind == 2) {
         std::vector<int> prods;
         for (const Stmt& q : sc.stmts) if (!q.phony && !q.regen && q.id < a.id && q.deps_kind < 2) prods.push_back(q.id);
-        if (prods.empty()) kind = 1; else { dd.producer = prods[C((uint32_t)prods.size())]; sc.stmts[dd.producer].outs.push_back(dd.path); }
+        if (prods.empty()) kind = 1; else { dd.producer = prods[C((uint32_t)prods.size())]; AddDyndepOutput(sc.stmts[dd.producer], dd.path); }
       }
       a.dyndep = dd.path;
       if (C(2)) a.imp_ins.push_back(dd.path); else a.oo_ins.push_back(dd.path);
